@@ -9,6 +9,7 @@ CONSTANTS
   FixLock = TRUE
   FixInit = FALSE
   FixIsSet = TRUE
+  DetTime = FALSE
   Locked = TRUE
 INVARIANT NoError
 CHECK_DEADLOCK FALSE
